@@ -57,7 +57,7 @@ ASSUMPTIONS = [
 EXHAUSTIVE = {
     "quick": "all 3 x 38 x 6 x 2 = 1368 (srid, column layout, separator, header) CSV configurations, each through writeToFile "
              "and through writeToCsv (2736 cases)",
-    "thorough": "all 1368 CSV configurations x 2 writer entry points x 2 reader entry points x 3 tracks (16416 cases)",
+    "thorough": "all 1368 CSV configurations x 2 writer entry points x 2 reader entry points x 6 tracks (32832 cases)",
 }
 CASE_LIMIT_S = 30.0
 
@@ -108,43 +108,45 @@ def chunks(tier, seed):
     out = []
     nsh = 12
     for k in range(nsh):
-        out.append({"kind": "csv_enum", "shard": k, "of": nsh, "key": "csvenum%d" % k, "reps": 1 if q else 3,
+        out.append({"kind": "csv_enum", "shard": k, "of": nsh, "key": "csvenum%d" % k, "reps": 1 if q else 6,
                     "both_readers": not q})
     for k in range(4):
-        out.append({"kind": "csv_rand", "key": "csvrand%d" % k, "n": 800 if q else 8000})
+        out.append({"kind": "csv_rand", "key": "csvrand%d" % k, "n": 800 if q else 20000})
     for k in range(4):
-        out.append({"kind": "gpx", "key": "gpx%d" % k, "n": 300 if q else 3000})
+        out.append({"kind": "gpx", "key": "gpx%d" % k, "n": 300 if q else 8000})
     for k in range(4):
-        out.append({"kind": "net", "key": "net%d" % k, "n": 300 if q else 3000})
+        out.append({"kind": "net", "key": "net%d" % k, "n": 300 if q else 8000})
     for k in range(2):
-        out.append({"kind": "wkt", "key": "wkt%d" % k, "n": 500 if q else 5000})
+        out.append({"kind": "wkt", "key": "wkt%d" % k, "n": 500 if q else 12000})
     for k in range(8):
-        out.append({"kind": "seq", "key": "seq%d" % k, "n": 150 if q else 1200})
+        out.append({"kind": "seq", "key": "seq%d" % k, "n": 150 if q else 3000})
     return out
 
 
 def floors(tier):
     q = tier == "quick"
-    s = 1 if q else 8
+    s = 1 if q else 10
     return {
-        "monitors": {"obstime_formats.conserved": 9000 * s, "csv.roundtrip": 4000 * s, "gpx.roundtrip": 600 * s,
-                     "net.roundtrip": 600 * s, "wkt.roundtrip": 600 * s, "coord.within_written_precision": 40000 * s,
-                     "timestamp.same_second": 10000 * s},
-        "classes": {"csv": 4000, "gpx": 600, "net": 600, "wkt": 600, "sequence": 500,
-                    "srid_ENU": 1000, "srid_GEO": 1000, "srid_ECEF": 900,
-                    "perm_nonidentity": 2000, "cols_ENT": 400, "cols_ENU": 400, "cols_EN": 100,
-                    "sep_comma": 400, "sep_semicolon": 400, "sep_pipe": 400, "sep_tab": 400, "sep_blank": 400,
-                    "header_0": 1500, "header_1": 1500, "writeToFile": 1500, "writeToCsv": 1500,
-                    "readFromFile": 1000, "readFromCsv": 1000,
-                    "val_negative": 2000, "val_ge_1e8": 1000, "val_tiny_negative": 150, "val_many_decimals": 2000,
-                    "val_rounding_tie": 100,
-                    "ts_midnight": 500, "ts_month_end": 500, "ts_dec31_235959": 150, "ts_feb29": 150,
-                    "single_fix": 200, "eight_fixes": 200,
-                    "gpx_GEO": 250, "gpx_ENU": 250, "gpx_multi_track": 80,
-                    "net_orient_direct": 300, "net_orient_inverse": 300, "net_orient_double": 300,
-                    "net_multi_vertex": 400, "net_header_0": 200, "net_header_1": 200,
-                    "wkt_exponent": 100},
-        "distinct_nontrivial": 5000 * s,
+        "monitors": {"obstime_formats.conserved": 25000 * s, "csv.roundtrip": 6000 * s, "gpx.roundtrip": 1200 * s,
+                     "net.roundtrip": 1000 * s, "wkt.roundtrip": 900 * s, "coord.within_written_precision": 90000 * s,
+                     "timestamp.same_second": 25000 * s},
+        "classes": {"csv": 5000, "gpx": 1200, "net": 1000, "wkt": 900, "sequence": 1000,
+                    "srid_ENU": 1800, "srid_GEO": 1800, "srid_ECEF": 1800,
+                    "perm_nonidentity": 4000, "cols_ENUT": 3000, "cols_ENT": 900, "cols_ENU": 900, "cols_EN": 300,
+                    "sep_comma": 900, "sep_semicolon": 900, "sep_pipe": 900, "sep_tab": 900, "sep_blank": 900,
+                    "sep_comma_blank": 900,
+                    "header_0": 2500, "header_1": 2500, "writeToFile": 2500, "writeToCsv": 2500,
+                    "readFromFile": 3000, "readFromCsv": 1800, "tf_explicit": 2000, "tf_global": 2500,
+                    "val_negative": 5000, "val_ge_1e8": 3500, "val_tiny_negative": 1500, "val_many_decimals": 5000,
+                    "val_rounding_tie": 1500,
+                    "ts_midnight": 2000, "ts_month_end": 2500, "ts_dec31_235959": 500, "ts_feb29": 900,
+                    "single_fix": 800, "eight_fixes": 800,
+                    "gpx_GEO": 600, "gpx_ENU": 600, "gpx_multi_track": 400,
+                    "net_orient_direct": 800, "net_orient_inverse": 800, "net_orient_double": 800,
+                    "net_multi_vertex": 900, "net_header_0": 500, "net_header_1": 500, "net_loop": 300,
+                    "net_ENU": 600, "net_GEO": 300,
+                    "wkt_exponent": 500, "wkt_integer": 300, "wkt_ENU": 500, "wkt_GEO": 250},
+        "distinct_nontrivial": 7000 * s,
     }
 
 
